@@ -31,6 +31,7 @@ Theorem C16_unknown_service_is_reported : forall w rt mh hops p f mid back d n,
   wf_world w = true ->
   utf8_valid (p_fn p) = true -> utf8_valid (p_fs p) = true ->
   beq_bytes (p_fn p) (p_tn p) = false ->
+  too_long (p_fs p) || too_long (p_ts p) = false ->
   rt (p_fn p) (p_tn p) = mid ++ [p_tn p] -> transit_ok w mid hops p = true ->
   find_node w (p_tn p) = Some d -> fw_eval (nd_fw d) (p_ts p) = FwAccept ->
   reserved (p_ts p) = false -> mem (p_ts p) (nd_bound d) = false ->
@@ -47,6 +48,7 @@ Theorem C16_closed_while_waiting_is_reported : forall w rt mh hops p mid back d 
   wf_world w = true ->
   utf8_valid (p_fn p) = true -> utf8_valid (p_fs p) = true ->
   beq_bytes (p_fn p) (p_tn p) = false ->
+  too_long (p_fs p) || too_long (p_ts p) = false ->
   rt (p_fn p) (p_tn p) = mid ++ [p_tn p] -> transit_ok w mid hops p = true ->
   find_node w (p_tn p) = Some d -> fw_eval (nd_fw d) (p_ts p) = FwAccept ->
   reserved (p_ts p) = false -> mem (p_ts p) (nd_bound d) = true ->
@@ -58,9 +60,18 @@ Theorem C16_closed_while_waiting_is_reported : forall w rt mh hops p mid back d 
 Proof. exact closed_while_waiting_is_reported. Qed.
 Print Assumptions C16_closed_while_waiting_is_reported.
 
+(* a service name of more than 8 bytes never reaches the wire (it would be cut to another name):
+   the caller is told at once and nobody else anything *)
+Theorem C16_too_long_name_is_refused : forall fixed w rt mh hops p f,
+  too_long (p_fs p) || too_long (p_ts p) = true ->
+  send_gen fixed w rt mh hops p f = mkout STooLong None false [].
+Proof. exact too_long_name_is_refused. Qed.
+Print Assumptions C16_too_long_name_is_refused.
+
 (* "a packet silently dropped by policy produces no notice at all": nothing is returned, read or
    told to anybody, on either tree *)
 Theorem C16_drop_is_silent : forall fixed w rt mh hops p f mid d rest nd,
+  too_long (p_fs p) || too_long (p_ts p) = false ->
   rt (p_fn p) (p_tn p) = mid ++ d :: rest -> transit_ok w mid hops p = true ->
   find_node w d = Some nd -> fw_eval (nd_fw nd) (p_ts p) = FwDrop ->
   send_gen fixed w rt mh hops p f = quiet.
@@ -96,6 +107,7 @@ Theorem C16_dial_to_unbound_service_is_cancelled : forall w rt mh p f mid back d
   utf8_valid (p_fn p) = true -> utf8_valid (p_fs p) = true ->
   utf8_valid (p_tn p) = true -> utf8_valid (p_ts p) = true ->
   beq_bytes (p_fn p) (p_tn p) = false ->
+  too_long (p_fs p) || too_long (p_ts p) = false ->
   rt (p_fn p) (p_tn p) = mid ++ [p_tn p] -> transit_ok w mid mh p = true ->
   find_node w (p_tn p) = Some d -> fw_eval (nd_fw d) (p_ts p) = FwAccept ->
   reserved (p_ts p) = false -> mem (p_ts p) (nd_bound d) = false ->
@@ -108,6 +120,7 @@ Print Assumptions C16_dial_to_unbound_service_is_cancelled.
 
 (* ... and not when the dial's packets are dropped by policy *)
 Theorem C16_dropped_dial_is_not_cancelled : forall w rt mh p f mid d rest nd,
+  too_long (p_fs p) || too_long (p_ts p) = false ->
   rt (p_fn p) (p_tn p) = mid ++ d :: rest -> transit_ok w mid mh p = true ->
   find_node w d = Some nd -> fw_eval (nd_fw nd) (p_ts p) = FwDrop ->
   dial w rt mh p f = DTimesOut.
